@@ -48,6 +48,10 @@ def check_items(items) -> list[str]:
     errs += [f"body: {e}" for e in RC.dict_errors(d1, want)]
     if d1 != d2:
         errs.append(f"frame and bare-body dictionaries differ: {d2!r:.100} vs {d1!r:.100}")
+    if not errs:  # the result belongs to the caller: change it, decode again (input as bytearray), expect the same values
+        d1.clear()
+        d2["meter_manufacturer"] = "x"
+        errs += [f"second decode of the same body: {e}" for e in RC.dict_errors(aidon.decode_notification_body(bytearray(body)), want)]
     return errs
 
 
